@@ -48,7 +48,7 @@ def trees(draw):
                 # it) so that no include line ever has two documented candidates by accident
                 if child.place in ('same', 'sub') and draw(st.booleans()):   # (a name with `..` is also searched relative to each -i directory)
                     child.name = draw(st.sampled_from(['body.asm', 'defs.asm']))
-                child.form = draw(st.integers(0, 4))
+                child.form = draw(st.integers(0, 7))    # 5..7: the written name gets a leading ./
                 if ambiguous[0] and child.place == 'same' and child.name.startswith('f') and all(e[0] == 'line' for e in child.entries):
                     ambiguous[0] = False
                     child.alt_lines = [e[1] for e in child.entries] + ['addi x0, x0, 0']
@@ -187,7 +187,11 @@ def write_tree(node, directory, rootdir, names_used, stats, depth=0, anc_dirs=()
             else:
                 child.alt_lines = None
         form = child.form
-        line = ['include %s', 'include "%s"', "include '%s'", 'include %s  # pulled in', 'include   %s'][form] % written
+        if form >= 5:
+            # ./name, ./sub/name, ./../name: the same file for every directory the name is looked up in
+            written = './' + written
+            stats['dot_slash_names'] = stats.get('dot_slash_names', 0) + 1
+        line = ['include %s', 'include "%s"', "include '%s'", 'include %s  # pulled in', 'include   %s'][form % 5] % written
         child.include_line = line
         text.append(line)
         stats['names'].append(os.path.basename(path))
@@ -297,6 +301,8 @@ def judge(case, res):
         res.count('trees_with_include_bytes')
     if stats.get('repeated_includes'):
         res.count('trees_with_a_file_included_twice')
+    if stats.get('dot_slash_names'):
+        res.count('trees_with_dot_slash_include_names')
     if any(len(v) > 1 for v in stats.get('written', {}).values()):
         res.count('trees_where_one_include_text_means_different_files')
     if len(set(stats['names'])) < len(stats['names']):
